@@ -53,6 +53,10 @@ pub struct Program {
     pub hold_acks: bool,
 }
 
+/// (unit scenario) an operation registered for node 0 that is never acknowledged
+const STUCK_OP: u64 = 990_001;
+/// ... a node that none of the generated calls names (it neither acknowledges nor leaves)
+const STUCK_NODE: &str = "10.9.0.4:3014";
 const NODES: [&str; 3] = ["10.9.0.1:3014", "10.9.0.2:3014", "10.9.0.3:3014"];
 
 fn gen_unit(rng: &mut Rng) -> Program {
@@ -239,6 +243,24 @@ fn execute_unit(prog: Program) -> Outcome {
     let seq = StdArc::new(AtomicU64::new(1));
     let recs: StdArc<StdMutex<Vec<Rec>>> = StdArc::new(StdMutex::new(Vec::new()));
     let mut hs = Vec::new();
+    // an operation nobody acknowledges, registered before anything else: while the other calls run, every report of
+    // the pending count (what `metrics-state` prints) must say that something is pending
+    dbs.register_pending_opp(STUCK_OP, "set stuck v".to_string(), &STUCK_NODE.to_string());
+    let under_reports: StdArc<StdMutex<Vec<String>>> = StdArc::new(StdMutex::new(Vec::new()));
+    {
+        let (dbs, ur) = (dbs.clone(), under_reports.clone());
+        let polls = 2 + prog.tasks.iter().map(|t| t.len()).sum::<usize>();
+        hs.push(spawn_on_node(&w, 0, "poller", move || {
+            for _ in 0..polls {
+                let st = dbs.get_oplog_state();
+                let n = st.find("pending_ops: ").map(|i| st[i + 13..].chars().take_while(|c| c.is_ascii_digit()).collect::<String>()).and_then(|x| x.parse::<u64>().ok());
+                if n.map(|n| n == 0).unwrap_or(false) {
+                    ur.lock().unwrap().push(st.clone());
+                }
+                nundb_verif_rt::stdx::thread::yield_now();
+            }
+        }));
+    }
     for (ti, evs) in prog.tasks.iter().cloned().enumerate() {
         let (dbs, seq, recs) = (dbs.clone(), seq.clone(), recs.clone());
         hs.push(spawn_on_node(&w, 0, &format!("acct{}", ti), move || {
@@ -264,6 +286,9 @@ fn execute_unit(prog: Program) -> Outcome {
         let _ = h.join();
     }
     out.recs = recs.lock().unwrap().clone();
+    if let Some(st) = under_reports.lock().unwrap().first() {
+        out.violations.push(Violation::new("unacked-not-pending", "report-during-calls", format!("an operation sent to {} and never acknowledged is pending, but a report taken while other register/ack calls ran says: {}", STUCK_NODE, st)));
+    }
     let ops: BTreeSet<u64> = out.recs.iter().filter_map(|r| match r.ev {
         Ev::Reg { op, .. } | Ev::Ack { op, .. } => Some(op),
         Ev::Leave { .. } => None,
